@@ -215,3 +215,33 @@ package fzf
 //@ loop 3
 //@   invariant 2 <= j && i + j <= len(s) && 0 <= i && i + 5 < len(s) && s[i] == 27 && s[i+1] == 93
 //@   decreases len(s) - i - j
+
+// stringBytes / byteString: the same bytes viewed as []byte / string without copying (unsafe; trusted idiom)
+//@ func stringBytes trusted
+//@ ensures result.arr == data.arr && result.off == data.off && len(result) == len(data) && cap(result) == len(data)
+//@ func byteString trusted
+//@ ensures result.arr == data.arr && result.off == data.off && len(result) == len(data)
+
+// firstSep(s, i): index of the first ';' or ':' at or after i (-1 if none)
+//@ spec func firstSep(s string, i int) int = i >= len(s) ? -1 : ((s[i] == 59 || s[i] == 58) ? i : firstSep(s, i + 1)) decreases len(s) - i
+// decimal value of the digits s[0:n)
+//@ spec func decVal(s string, n int) int = n <= 0 ? 0 : decVal(s, n - 1) * 10 + (s[n - 1] - 48) decreases n
+//@ spec func allDigits(s string, n int) bool = forall(k, 0, n, 48 <= s[k] && s[k] <= 57)
+
+//@ lemma firstSep_skip(s string, a int, b int) induction b
+//@ property C11
+//@ requires 0 <= a && a <= b && b <= len(s) && forall(k, a, b, s[k] != 59 && s[k] != 58)
+//@ ensures firstSep(s, a) == firstSep(s, b)
+
+// The numeric field of an SGR parameter list ends at the first separator of either kind.
+//@ func parseAnsiCode
+//@ property C11
+//@ wrap byte
+//@ ensures firstSep(s, 0) < 0 ==> len(r1) == 0
+//@ ensures firstSep(s, 0) >= 0 ==> r1.arr == s.arr && r1.off == s.off + firstSep(s, 0) + 1 && len(r1) == len(s) - firstSep(s, 0) - 1
+//@ ensures r0 == -1 || r0 >= 0
+//@ ensures r0 >= 0 ==> allDigits(s, firstSep(s, 0) < 0 ? len(s) : firstSep(s, 0)) && r0 == decVal(s, firstSep(s, 0) < 0 ? len(s) : firstSep(s, 0))
+//@ ensures r0 == -1 ==> (firstSep(s, 0) < 0 ? len(s) : firstSep(s, 0)) == 0 || !allDigits(s, firstSep(s, 0) < 0 ? len(s) : firstSep(s, 0))
+//@ use @"if i >= 0" firstSep_skip(s, 0, i >= 0 ? i : len(s))
+//@ loop 1
+//@   invariant 0 <= code && code == decVal(s, iter) && allDigits(s, iter)
